@@ -102,10 +102,14 @@ impl Allocator {
     /// Kills an entity atomically (will be updated when the allocator is
     /// maintained).
     pub fn kill_atomic(&self, e: Entity) -> Result<(), WrongGeneration> {
+        #[cfg(specs_verif)]
+        crate::verif::yield_point("kill_atomic.check");
         if !self.is_alive(e) {
             return Err(self.del_err(e));
         }
 
+        #[cfg(specs_verif)]
+        crate::verif::yield_point("kill_atomic.add");
         self.killed.add_atomic(e.id());
 
         Ok(())
@@ -152,11 +156,17 @@ impl Allocator {
 
     /// Allocate a new entity
     pub fn allocate_atomic(&self) -> Entity {
+        #[cfg(specs_verif)]
+        crate::verif::yield_point("allocate_atomic.start");
         let id = self.cache.pop_atomic().unwrap_or_else(|| {
             atomic_increment(&self.max_id).expect("No entity left to allocate") as Index
         });
 
+        #[cfg(specs_verif)]
+        crate::verif::yield_point("allocate_atomic.raise");
         self.raised.add_atomic(id);
+        #[cfg(specs_verif)]
+        crate::verif::yield_point("allocate_atomic.gen");
         let gen = self
             .generation(id)
             .map(|gen| if gen.is_alive() { gen } else { gen.raised() })
@@ -213,6 +223,87 @@ impl Allocator {
         if self.generations.len() <= i {
             self.generations.resize(i + 1, ZeroableGeneration(None));
         }
+    }
+
+    /// Read-only consistency check of the allocator's internal sets, meant to
+    /// be called while no other thread uses the allocator. Returns one
+    /// `(kind, description)` pair per broken invariant; `kind` is `"overlap"`
+    /// for states in which an index is (or is about to be) shared, and `"leak"`
+    /// for dead indices that are not on the free list.
+    #[cfg(specs_verif)]
+    pub(crate) fn verif_check(&self) -> Vec<(&'static str, String)> {
+        use hibitset::BitSetLike;
+        use std::collections::HashSet;
+
+        let mut out = Vec::new();
+        let max_id = self.max_id.load(Ordering::Relaxed);
+        let len = self.cache.len.load(Ordering::Relaxed);
+
+        for i in (&self.alive).iter() {
+            if self.raised.contains(i) {
+                out.push(("overlap", format!("index {} is both alive and raised", i)));
+            }
+            match self.generations.get(i as usize) {
+                Some(g) if g.is_alive() => {}
+                g => out.push((
+                    "overlap",
+                    format!("index {} is in `alive` but its generation is {:?}", i, g),
+                )),
+            }
+            if i as usize >= max_id {
+                out.push(("overlap", format!("alive index {} >= max_id {}", i, max_id)));
+            }
+        }
+        for (i, g) in self.generations.iter().enumerate() {
+            if g.is_alive() && !self.alive.contains(i as Index) {
+                out.push((
+                    "overlap",
+                    format!("generation of index {} is alive but the index is not in `alive`", i),
+                ));
+            }
+        }
+        for i in (&self.raised).iter() {
+            if i as usize >= max_id {
+                out.push(("overlap", format!("raised index {} >= max_id {}", i, max_id)));
+            }
+        }
+        for i in (&self.killed).iter() {
+            if !self.alive.contains(i) && !self.raised.contains(i) {
+                out.push((
+                    "overlap",
+                    format!("index {} is marked killed but is neither alive nor raised", i),
+                ));
+            }
+        }
+        if len > self.cache.cache.len() {
+            out.push((
+                "overlap",
+                format!("free list length {} exceeds its storage {}", len, self.cache.cache.len()),
+            ));
+        }
+        let live_prefix = &self.cache.cache[..len.min(self.cache.cache.len())];
+        let mut seen = HashSet::new();
+        for &i in live_prefix {
+            if !seen.insert(i) {
+                out.push(("overlap", format!("index {} is on the free list twice", i)));
+            }
+            if self.alive.contains(i) || self.raised.contains(i) {
+                out.push(("overlap", format!("occupied index {} is on the free list", i)));
+            }
+            if i as usize >= max_id {
+                out.push(("overlap", format!("free-list index {} >= max_id {}", i, max_id)));
+            }
+        }
+        for i in 0..max_id {
+            let i = i as Index;
+            if !self.alive.contains(i) && !self.raised.contains(i) && !seen.contains(&i) {
+                out.push((
+                    "leak",
+                    format!("index {} is neither occupied nor on the free list", i),
+                ));
+            }
+        }
+        out
     }
 }
 
@@ -323,6 +414,13 @@ impl EntitiesRes {
     #[inline]
     pub fn is_alive(&self, e: Entity) -> bool {
         self.alloc.is_alive(e)
+    }
+
+    /// Verification hook: read-only consistency check of the allocator (see
+    /// `Allocator::verif_check`).
+    #[cfg(specs_verif)]
+    pub fn verif_check(&self) -> Vec<(&'static str, String)> {
+        self.alloc.verif_check()
     }
 }
 
@@ -569,8 +667,12 @@ impl Extend<Index> for EntityCache {
 /// checked overflow, returning `None` instead.
 fn atomic_increment(i: &AtomicUsize) -> Option<usize> {
     use std::usize;
+    #[cfg(specs_verif)]
+    crate::verif::yield_point("atomic_increment.load");
     let mut prev = i.load(Ordering::Relaxed);
     while prev != usize::MAX {
+        #[cfg(specs_verif)]
+        crate::verif::yield_point("atomic_increment.cas");
         match i.compare_exchange_weak(prev, prev + 1, Ordering::Relaxed, Ordering::Relaxed) {
             Ok(x) => return Some(x),
             Err(next_prev) => prev = next_prev,
@@ -583,8 +685,12 @@ fn atomic_increment(i: &AtomicUsize) -> Option<usize> {
 /// Resembles a `fetch_sub(1, Ordering::Relaxed)` with
 /// checked underflow, returning `None` instead.
 fn atomic_decrement(i: &AtomicUsize) -> Option<usize> {
+    #[cfg(specs_verif)]
+    crate::verif::yield_point("atomic_decrement.load");
     let mut prev = i.load(Ordering::Relaxed);
     while prev != 0 {
+        #[cfg(specs_verif)]
+        crate::verif::yield_point("atomic_decrement.cas");
         match i.compare_exchange_weak(prev, prev - 1, Ordering::Relaxed, Ordering::Relaxed) {
             Ok(x) => return Some(x),
             Err(next_prev) => prev = next_prev,
